@@ -44,6 +44,8 @@ pub enum MetaSpec {
     OtherVersion,
     /// another tool version and another hash
     OtherVersionOtherHash,
+    /// a neighbouring version (patch number + 1) and another hash
+    NearVersion,
     /// this version, a hash for other data
     OtherHash,
     /// literal text (garbage kinds)
@@ -313,6 +315,18 @@ pub fn wipe(p: &Paths) -> std::io::Result<()> {
 pub const OTHER_VERSION: &str = "0.0.1-verif-other";
 pub const OTHER_HASH: &str = "0123456789abcdef0123456789abcdef";
 
+/// The version with its last numeric component incremented ("0.1.5" -> "0.1.6").
+pub fn near_version(v: &str) -> String {
+    let mut parts: Vec<String> = v.split('.').map(|p| p.to_string()).collect();
+    if let Some(last) = parts.last_mut() {
+        match last.parse::<u64>() {
+            Ok(n) => *last = (n + 1).to_string(),
+            Err(_) => last.push('1'),
+        }
+    }
+    parts.join(".")
+}
+
 pub fn meta_text(spec: &MetaSpec, r: &Reference) -> Option<String> {
     let esc = |s: &str| serde_json::to_string(s).unwrap();
     match spec {
@@ -324,6 +338,7 @@ pub fn meta_text(spec: &MetaSpec, r: &Reference) -> Option<String> {
         }
         MetaSpec::OtherVersion => Some(format!("{{\"version\":{},\"database_hash\":{}}}", esc(OTHER_VERSION), esc(&r.hash))),
         MetaSpec::OtherVersionOtherHash => Some(format!("{{\"version\":{},\"database_hash\":{}}}", esc(OTHER_VERSION), esc(OTHER_HASH))),
+        MetaSpec::NearVersion => Some(format!("{{\"version\":{},\"database_hash\":{}}}", esc(&near_version(&r.version)), esc(OTHER_HASH))),
         MetaSpec::OtherHash => Some(format!("{{\"version\":{},\"database_hash\":{}}}", esc(&r.version), esc(OTHER_HASH))),
         MetaSpec::Text { text } => Some(text.clone()),
     }
